@@ -4,4 +4,4 @@ From Coq Require Import List NArith Bool.
 From NngV Require Import Gen.Consts Proto.Common Proto.SubModel Proto.PubModel Proto.XsubModel.
 
 Definition sub_step_cur : sub -> pop -> sub * list pout := sub_step C05_SUB_UNSUB_CLEARS_POLL.
-Definition xsub_step_cur : xsub -> pop -> xsub * list pout := xsub_step C05_MSGQ_GET_TRIES_FIRST.
+Definition xsub_step_cur : xsub -> pop -> xsub * list pout := xsub_step C05_MSGQ_GET_TRIES_FIRST C05_MSGQ_RESIZE_NOTIFIES.
